@@ -306,6 +306,7 @@ def run_profile(sh, prop, profile, n_models, monitors, nontrivial=None, prefix='
             ov['horizon'] = (400, 1200)
             ov['script_rate'] = 0.04
             ov['budget'] = [None, None, 1500, 700]
+            ov['p_collect'] = 0.0           # (sinks that keep every part make each deep-copying probe ever slower)
             ov['max_events'] = 200000
             sh.count(prefix + 'long_history_models')
         # (C01 judges run windows: a run cut short by an exception leaves its end marker behind and later runs stop
